@@ -111,7 +111,7 @@ def evidence_extra(total: Dict[str, Any]) -> Dict[str, Any]:
 
 FAMILIES = {'async.batch': fam_batch}
 PLAN = {
-    'quick': {'async.batch': 14000},
+    'quick': {'async.batch': 84000},
     'thorough': {'async.batch': 120000},
 }
 THOROUGH_BUDGET_S = 600
